@@ -54,6 +54,15 @@ type c22Assoc struct {
 	repliesTried int
 }
 
+// sourceClass names, for violation signatures, how an address that is not the
+// owner's endpoint relates to the owner.
+func sourceClass(a *net.UDPAddr, as *c22Assoc) string {
+	if a.IP.Equal(as.ownerIP) {
+		return "owner's IP, not the owner's port"
+	}
+	return "not the owner's IP"
+}
+
 func mustListenUDP(ip net.IP, port int) *simnet.UDPConn {
 	s, err := simnet.ListenUDP("udp4", &net.UDPAddr{IP: ip, Port: port})
 	if err != nil {
@@ -101,7 +110,7 @@ func runC22() {
 				"datagram %d was sent to the relay socket of association %d but was forwarded on stream %d", dg.id, dg.assoc.idx, r.streamID)
 		}
 		if !dg.fromOwner {
-			simrt.Failf("foreign-datagram-relayed", dg.sender.kind+"/"+as.declKind,
+			simrt.Failf("foreign-datagram-relayed", sourceClass(dg.sender.addr, as),
 				"association %d (owner %s, control connection %s, request declared: %s, owner port per model: %d): datagram %d from %s (%s) was forwarded into the mesh",
 				as.idx, as.ownerIP, as.ctl.local, as.declKind, as.boundPort, dg.id, dg.sender.addr, dg.sender.kind)
 		}
@@ -292,7 +301,11 @@ func runC22() {
 		if want == "" {
 			want = "<nobody: no datagram from the owner's IP has arrived and the request declared no port>"
 		}
-		simrt.Failf("reply-sent-to-non-owner", kind+"/"+as.declKind,
+		toClass := "destination is nobody's address"
+		if ta, err := net.ResolveUDPAddr("udp4", rec.To); err == nil {
+			toClass = sourceClass(ta, as)
+		}
+		simrt.Failf("reply-sent-to-non-owner", toClass,
 			"association %d (owner %s, request declared: %s): a reply datagram (%d bytes) left the relay socket %s toward %s (%s); the owner is %s",
 			as.idx, as.ownerIP, as.declKind, rec.Len, rec.From, rec.To, kind, want)
 	}
